@@ -12,7 +12,92 @@ def replay(ctx, payload):
     if payload.get("kind") in ("coordinator_session", "coordinator_session_reuse_twin"):
         from props import coordcommon as CC
         return CC.replay_session(ctx, "C08", payload)
+    if payload.get("kind") == "episode_replay_probe":
+        c2 = CK.Ctx("C08", "quick", 1)
+        episode_replay_probe(c2)
+        for v in c2.violations:
+            print(v["what"])
+        if c2.violations:
+            print("VIOLATION property=C08 replay=(this file)")
+        return 1 if c2.violations else 0
     return _walk_replay(ctx, payload)
+
+
+def episode_replay_probe(ctx):
+    """One rich script - scans, service discovery, two exploits, data discovery, an exfiltration between two hosts that BOTH hold
+    data of their own, an exfiltration to the outside host, a block - is played in four consecutive episodes on the real world:
+    every episode must give the observations of the first one, and after every reset the live tables AND the pristine copies
+    must be what they were at the start (an exfiltration that reaches into the pristine copy shows two resets later)."""
+    import copy as _copy
+    nsgenv, WL, WR = WC._imports()
+    from AIDojoCoordinator.game_components import Action, ActionType, IP, Network
+    stats = {"episodes": 0, "observations_compared": 0}
+    for use_fw in (True, False):
+        cfg = nsgenv.base_config("scenario1_small", use_firewall=use_fw)
+        try:
+            drv = WR.start_world(cfg)
+        except Exception as e:
+            ctx.stage_errors.append(("episode replay probe", f"{type(e).__name__}: {e}"))
+            continue
+        g = drv.g
+        replay = {"kind": "episode_replay_probe", "use_firewall": use_fw}
+        try:
+            T0 = WL.impl_tables(g)
+            addr = ("10.1.8.1", 1)
+            sp = {"known_networks": set(), "known_hosts": set(), "known_data": {}, "known_services": {},
+                  "controlled_hosts": [IP("213.47.23.195"), IP("192.168.2.2")]}
+            first = None
+            for episode in range(4):
+                gs = WL.run_coro(g.register_agent(addr, "Attacker", sp) if episode == 0 else g.reset_agent(addr, "Attacker", sp))
+                seq = [WL.impl_view(gs)]
+
+                def play(act):
+                    nonlocal gs
+                    gs = WL.run_coro(g.step(addr, gs, act))
+                    seq.append(WL.impl_view(gs))
+                me, smb, db, out = IP("192.168.2.2"), IP("192.168.1.2"), IP("192.168.1.3"), IP("213.47.23.195")
+                play(Action(ActionType.ScanNetwork, {"source_host": me, "target_network": Network("192.168.1.0", 24)}))
+                for h in (smb, db):
+                    play(Action(ActionType.FindServices, {"source_host": me, "target_host": h}))
+                for h in (smb, db):
+                    for sv in sorted(gs.known_services.get(h, []), key=lambda x: x.name):
+                        if h not in gs.controlled_hosts:
+                            play(Action(ActionType.ExploitService, {"source_host": me, "target_host": h, "target_service": sv}))
+                for h in (smb, db):
+                    play(Action(ActionType.FindData, {"source_host": h, "target_host": h}))
+                for d in sorted(gs.known_data.get(smb, []), key=lambda x: x.id)[:2]:
+                    play(Action(ActionType.ExfiltrateData, {"source_host": smb, "target_host": db, "data": d}))      # onto a host with data of its own
+                for d in sorted(gs.known_data.get(db, []), key=lambda x: x.id)[:1]:
+                    play(Action(ActionType.ExfiltrateData, {"source_host": db, "target_host": out, "data": d}))
+                play(Action(ActionType.BlockIP, {"source_host": smb, "target_host": smb, "blocked_host": me}))
+                play(Action(ActionType.FindData, {"source_host": db, "target_host": db}))
+                play(Action(ActionType.ScanNetwork, {"source_host": me, "target_network": Network("192.168.1.0", 24)}))
+                stats["episodes"] += 1
+                stats["observations_compared"] += len(seq)
+                if first is None:
+                    first = seq
+                    if WL.impl_tables(g)["data"] == T0["data"]:
+                        ctx.stage_errors.append(("episode replay probe", "the script no longer changes the world (no exfiltration happened)"))
+                elif seq != first:
+                    k = next((i for i, (x, y) in enumerate(zip(first, seq)) if x != y), min(len(first), len(seq)))
+                    ctx.violations.append({"key": f"episode {episode + 1} differs from episode 1 (use_firewall={use_fw})",
+                                           "what": f"the same script gives a different observation at step {k} of episode {episode + 1} than in episode 1: {WR.canon(seq[k]) if k < len(seq) else None} instead of {WR.canon(first[k]) if k < len(first) else None}",
+                                           "replay": replay})
+                    break
+                WL.run_coro(g.reset())
+                T = WL.impl_tables(g)
+                if not WR.same_world(T, T0):
+                    diff = [k for k in WR.WORLD_KEYS if WR.canon(T[k]) != WR.canon(T0[k])]
+                    ctx.violations.append({"key": f"reset leaves {diff} (episode replay, use_firewall={use_fw})",
+                                           "what": f"after the reset that follows episode {episode + 1} the world tables {diff} (live tables and pristine copies) differ from their initial condition",
+                                           "replay": replay})
+                    break
+        except Exception as e:
+            import traceback
+            ctx.stage_errors.append(("episode replay probe", f"{type(e).__name__}: {e}\n{traceback.format_exc()[-500:]}"))
+        finally:
+            drv.close()
+    ctx.coverage["episode_replay_probe"] = stats
 
 
 def correspondence(ctx):
@@ -21,11 +106,12 @@ def correspondence(ctx):
     # multi-agent sessions on the real coordinator; a monitor compares the world tables with the pristine ones whenever the
     # reset task has reset the game (tagged C08 in coordcommon); the sessions are also followed by the coordinator model
     from props import coordcommon as CC
-    CC.run_sessions(ctx, "C08", 70 if th else 38,
+    CC.run_sessions(ctx, "C08", 72 if th else 40,
                     lambda r: dict(n_events=r.choice([50, 80]), burst=0.15, fault=0.06, bad=0.02, resets=0.3),
                     lambda r: dict(required=r.choice([1, 2, 2, 3]), max_steps=r.choice([2, 3, 6])))
     sess_cov = {k: ctx.coverage.get(k) for k in ("sessions", "labels_followed", "response_and_barrier_statistics")}
     ctx.coverage = {"coordinator_sessions": sess_cov}
     WC.world_suite(ctx, "C08", tags={"reset", "init", "load"}, walks_per_spec=4 if th else 1, n_generated=24 if th else 6,
                    n_steps=160 if th else 80, perturb=0.0, resets=20)
+    episode_replay_probe(ctx)
     ctx.assumptions += ASSUME + ["static addresses (dynamic re-labelling is C13)"]
